@@ -17,7 +17,7 @@ const (
 type storedMessages struct {
 	logger                Logger
 	lock                  sync.RWMutex
-	lastUsed              time.Time
+	lastUsedEpoch         uint64
 	messages              []*IncMessage
 	messageCountPerSender map[uint16]int
 }
@@ -26,7 +26,7 @@ type MessageHandler interface {
 	HandleMessage(msg *IncMessage)
 }
 
-func (sm *storedMessages) add(msg *IncMessage) {
+func (sm *storedMessages) add(msg *IncMessage, epoch uint64) {
 	sm.lock.Lock()
 	defer sm.lock.Unlock()
 
@@ -39,11 +39,17 @@ func (sm *storedMessages) add(msg *IncMessage) {
 	sm.messageCountPerSender[msg.Source]++
 
 	sm.messages = append(sm.messages, msg)
-	now := time.Now()
 
-	if now.After(sm.lastUsed) {
-		sm.lastUsed = now
+	if epoch > sm.lastUsedEpoch {
+		sm.lastUsedEpoch = epoch
 	}
+}
+
+func (sm *storedMessages) lastUsed() uint64 {
+	sm.lock.RLock()
+	defer sm.lock.RUnlock()
+
+	return sm.lastUsedEpoch
 }
 
 // topicPrefix returns at most the first 8 bytes of a topic, for logging.
@@ -172,7 +178,7 @@ func (b *Box) storeOrForward(msg *IncMessage) {
 	b.markTopicForSender(msg)
 
 	messages := b.getOrCreateMessagesByTopic(msg.Topic)
-	messages.add(msg)
+	messages.add(msg, atomic.LoadUint64(&b.currentGCEpochNum))
 }
 
 func (b *Box) markTopicForSender(msg *IncMessage) {
@@ -252,7 +258,7 @@ func (b *Box) mark(now uint64, epochsAfterWhichWeGC time.Duration) []string {
 	defer b.lock.RUnlock()
 
 	for topic, messages := range b.pendingMessages {
-		if float64(messages.lastUsed.Unix())+b.GCExpire.Seconds() < float64(now) {
+		if time.Duration(now-messages.lastUsed()) > epochsAfterWhichWeGC {
 			topics2Delete = append(topics2Delete, topic)
 		}
 	}
